@@ -184,13 +184,15 @@ def run_cli(res, vh, exe):
     hexdir = os.path.join(work, "cmp")
     os.makedirs(hexdir)
     for name, text in CLI_SOURCES.items():
-        for given in (False, True):
-            d = os.path.join(work, name + ("-given" if given else ""))
-            os.makedirs(d)
+        for given in ("", "o", "e", "oe"):
+            d = os.path.join(work, name + "-given-" + given)
+            os.makedirs(os.path.join(d, "out"))
             src = os.path.join(d, "prog.asm")
             open(src, "w").write(text)
-            paths = {"code": os.path.join(d, "f.hex" if given else "prog.hex"), "eeprom": os.path.join(d, "e.hex" if given else "prog.eep.hex")}
-            args = ["-s", src] + (["-o", paths["code"], "-e", paths["eeprom"]] if given else [])
+            # a name that is not given is derived from the SOURCE name, whatever the other one is
+            paths = {"code": os.path.join(d, "out", "f.hex") if "o" in given else os.path.join(d, "prog.hex"),
+                     "eeprom": os.path.join(d, "out", "e.hex") if "e" in given else os.path.join(d, "prog.eep.hex")}
+            args = ["-s", src] + (["-o", paths["code"]] if "o" in given else []) + (["-e", paths["eeprom"]] if "e" in given else [])
             p = subprocess.run([binary] + args, cwd=d, env=env, stdout=subprocess.PIPE, stderr=subprocess.STDOUT, text=True, timeout=120)
             l = lib[name]
             for k in ("code", "eeprom"):
@@ -210,7 +212,7 @@ def run_cli(res, vh, exe):
         if len(f) == 4 and (f[1] != "ok" or f[2] != "ok"):
             res.failing.append(dict(interface="avra-rs binary", input=jobs[int(f[0])], expected="a file equal to Hex.write of the library's image, decoding to it",
                                     observed="model-equal=%s reader-accepts=%s" % (f[1], f[2]), cls="cli-file-content"))
-    res.oblige("command-line tool: %d files for %d sources x {default, given names} compared with the library's images" % (len(jobs), len(CLI_SOURCES)),
+    res.oblige("command-line tool: %d files for %d sources x {default names, -o, -e, both} compared with the library's images" % (len(jobs), len(CLI_SOURCES)),
                len(out) >= len(jobs), "%d of %d compared" % (len(out), len(jobs)))
     shutil.rmtree(work, ignore_errors=True)
 
